@@ -239,6 +239,15 @@ InitProject(t, q) ==
            new == {Mk(r, nk)} \cup (IF Has(t, Append(r, W)) THEN {} ELSE {Mk(Append(r, W), "ws")})
        IN [res |-> OkP(q), tree |-> (t \ old) \cup new, added |-> new]
 
+\* removing a project by hand (delete .signac/ and the - empty - workspace directory): the inverse of InitProject.
+\* Enabled for a physical path of a project whose workspace holds nothing.
+DeinitEnabled(t, q) ==
+  /\ IsProjAt(t, q) /\ Resolve(t, q) = q
+  /\ ~\E n \in t : Len(n.p) > Len(q) + 1 /\ SubSeq(n.p, 1, Len(q) + 1) = Append(q, W)
+Deinit(t, q) ==
+  LET nk == IF At(t, q).k = "jobproj" THEN "job" ELSE "dir"
+  IN (t \ {At(t, q), At(t, Append(q, W))}) \cup {Mk(q, nk)}
+
 ---------------------------------------------------------------------------
 (* the requirements of the property, declaratively *)
 PrefixesOf(q) == {SubSeq(q, 1, k) : k \in 0..Len(q)}
@@ -298,18 +307,23 @@ Missing(t)   == {Append(n.p, NX) : n \in {m \in t : m.k \in DirKinds}}
 Queries(t)   == {n.p : n \in t} \cup Through(t) \cup Missing(t)
 
 ---------------------------------------------------------------------------
-VARIABLES q, ph, t
-vars == <<q, ph, t>>
+VARIABLES q, ph, t, last
+vars == <<q, ph, t, last>>
 
-(* ph = 0: a tree has been chosen; PickQuery chooses the query (ph = 1); then at most two init_project steps *)
-Init == \E tr \in Trees : t = tr /\ q = NONE /\ ph = 0
+(* Histories.  ph = 0: a tree has been chosen; PickQuery chooses the path q (ph = 1); then up to two steps, each
+   an init_project(q) or a removal of the project at q, in any order the guards allow.  Every invariant below is a
+   STATE predicate over the current tree only: whatever was asked or initialised before, in whatever order, the
+   answers are functions of the tree as it is now (no memory of earlier calls). *)
+Init == \E tr \in Trees : t = tr /\ q = NONE /\ ph = 0 /\ last = "none"
 PickQuery    == /\ ph = 0 /\ \E qq \in Queries(t) : q' = qq
-                /\ ph' = 1 /\ UNCHANGED t
+                /\ ph' = 1 /\ UNCHANGED <<t, last>>
 InitExisting == /\ ph \in {1, 2} /\ InitEnabled(t, q) /\ IsProjAt(t, q)
-                /\ t' = InitProject(t, q).tree /\ ph' = ph + 1 /\ UNCHANGED q
+                /\ t' = InitProject(t, q).tree /\ ph' = ph + 1 /\ last' = "init" /\ UNCHANGED q
 InitCreate   == /\ ph \in {1, 2} /\ InitEnabled(t, q) /\ ~IsProjAt(t, q)
-                /\ t' = InitProject(t, q).tree /\ ph' = ph + 1 /\ UNCHANGED q
-Next == PickQuery \/ InitExisting \/ InitCreate
+                /\ t' = InitProject(t, q).tree /\ ph' = ph + 1 /\ last' = "init" /\ UNCHANGED q
+RemoveProject == /\ ph \in {1, 2} /\ DeinitEnabled(t, q)
+                 /\ t' = Deinit(t, q) /\ ph' = ph + 1 /\ last' = "remove" /\ UNCHANGED q
+Next == PickQuery \/ InitExisting \/ InitCreate \/ RemoveProject
 
 (* checked in every state, i.e. also on the trees init_project has produced *)
 TypeOK       == WellFormed(t)
@@ -323,24 +337,39 @@ InitFindsIt  == ph > 0 /\ InitEnabled(t, q) => LET r == InitProject(t, q) IN
                   /\ r.res = OkP(q) /\ GetProject(r.tree, q, FALSE) = OkP(q)
                   /\ \A n \in t : n.k # At(r.tree, n.p).k => n.p = Resolve(r.tree, q)   \* nothing else touched
 (* init_project on an existing project: the tree is unchanged; a second call never changes anything *)
-InitIdempotent == [][ph > 0 /\ IsProjAt(t, q) => t' = t]_vars
-SecondInitNoop == [][ph = 2 => t' = t]_vars
+InitIdempotent == [][last' = "init" /\ ph > 0 /\ IsProjAt(t, q) => t' = t]_vars
+SecondInitNoop == [][last = "init" /\ last' = "init" => t' = t]_vars
+\* removal undoes creation exactly (so that the histories create -> remove -> create ... stay inside the grammar)
+RemoveUndoesInit == ph > 0 /\ InitEnabled(t, q) /\ ~IsProjAt(t, q) /\ Exists(t, q) /\ Resolve(t, q) = q
+                      => DeinitEnabled(InitProject(t, q).tree, q) /\ Deinit(InitProject(t, q).tree, q) = t
 
 ---------------------------------------------------------------------------
 (* export: one record per tree with every query and the expected answers *)
 NodeSeq(s) == SetToSeq(s)
-CaseOf(tr, qq) ==
+\* the answers to all four questions, and which queries of a tree change their answers when the tree becomes t2
+Answers(tr, qq) == [q |-> qq, gp |-> GetProject(tr, qq, TRUE), gpx |-> GetProject(tr, qq, FALSE),
+                    open |-> OpenProject(tr, qq), job |-> GetJob(tr, qq)]
+\* base = the answers on t1 (computed once per tree); only physical, existing paths get the full re-query history
+Changed(base, t2) == SetToSeq({Answers(t2, y) : y \in {x \in DOMAIN base : Answers(t2, x) # base[x]}})
+\* (a path nothing stands below and no link points to cannot change any other answer: no history needed for it)
+Hist(tr, qq) == /\ Exists(tr, qq) /\ Resolve(tr, qq) = qq
+                /\ \E n \in tr : (n.p # qq /\ IsPrefix(qq, n.p)) \/ (n.k = "link" /\ n.tgt = qq)
+CaseOf(tr, qq, base) ==
   [q |-> qq, exists |-> Exists(tr, qq), phys |-> Phys(tr, qq), det |-> SymlinkedJobDirDetermined(tr, qq),
-   gp |-> GetProject(tr, qq, TRUE), gpx |-> GetProject(tr, qq, FALSE), open |-> OpenProject(tr, qq),
-   job |-> GetJob(tr, qq),
+   gp |-> base[qq].gp, gpx |-> base[qq].gpx, open |-> base[qq].open, job |-> base[qq].job,
    init |-> IF InitEnabled(tr, qq)
             THEN [enabled |-> TRUE, existing |-> IsProjAt(tr, qq), res |-> InitProject(tr, qq).res,
                   added |-> NodeSeq(InitProject(tr, qq).added),
-                  after |-> GetProject(InitProject(tr, qq).tree, qq, TRUE)]
-            ELSE [enabled |-> FALSE, existing |-> FALSE, res |-> Err, added |-> <<>>, after |-> Err]]
+                  after |-> GetProject(InitProject(tr, qq).tree, qq, TRUE),
+                  hist |-> ~IsProjAt(tr, qq) /\ Hist(tr, qq),
+                  changed |-> IF ~IsProjAt(tr, qq) /\ Hist(tr, qq) THEN Changed(base, InitProject(tr, qq).tree) ELSE <<>>]
+            ELSE [enabled |-> FALSE, existing |-> FALSE, res |-> Err, added |-> <<>>, after |-> Err, hist |-> FALSE, changed |-> <<>>],
+   remove |-> IF DeinitEnabled(tr, qq) THEN [enabled |-> TRUE, changed |-> Changed(base, Deinit(tr, qq))]
+              ELSE [enabled |-> FALSE, changed |-> <<>>]]
 TreeRec(tr) ==
-  LET qs == SetToSeq(Queries(tr)) IN
-  [nodes |-> NodeSeq(tr), cases |-> [j \in 1..Len(qs) |-> CaseOf(tr, qs[j])]]
+  LET qs == SetToSeq(Queries(tr))
+      base == [y \in Queries(tr) |-> Answers(tr, y)]
+  IN [nodes |-> NodeSeq(tr), cases |-> [j \in 1..Len(qs) |-> CaseOf(tr, qs[j], base)]]
 \* code -> spec: is every recorded observation the answer of the specification?
 ObsOK(tr, o) == /\ GetProject(tr, o.q, TRUE) = o.gp /\ GetProject(tr, o.q, FALSE) = o.gpx
                 /\ OpenProject(tr, o.q) = o.open /\ GetJob(tr, o.q) = o.job
